@@ -937,4 +937,253 @@ theorem exists_ref_of_ne_nil {pre : List String} {l : Level} (h : WF pre l) (hne
         | nil => simp [refsAt] at hq
         | cons b r => exact ⟨k :: b :: r, by simpa [refsAt, hl] using hq⟩
 
+/-! ### client receive path -/
+
+theorem receive_snd (s : ClientSt) (space topic claimed : String) (sigOk : Bool) (ts : TsClass)
+    (id : Nat) (keyId : Bool) :
+    (s.receive space topic claimed sigOk ts id keyId).2 =
+      if s.accepts space topic claimed sigOk ts id keyId
+      then (s.seen id).1.handlersFor space (s.localMatch space topic) else [] := by
+  unfold ClientSt.receive ClientSt.accepts
+  cases h1 : validateTopic topic
+  · simp
+  simp
+  by_cases h2 : s.localMatch space topic = []
+  · simp [h2]
+  simp [h2]
+  cases h3 : ctxAccount claimed
+  · simp
+  rename_i acct
+  simp
+  cases h4 : s.isMember space acct
+  · simp
+  simp
+  by_cases h5 : topicOwner topic = ""
+  all_goals by_cases h5' : acct = topicOwner topic
+  all_goals simp [h5, h5']
+  all_goals cases h6 : ClientSt.stale ts
+  all_goals simp
+  all_goals cases sigOk
+  all_goals simp
+  all_goals unfold ClientSt.seen
+  all_goals by_cases h8 : id ∈ s.ring
+  all_goals simp [h8]
+  all_goals cases keyId
+  all_goals simp
+
+theorem mem_ring_seen (s : ClientSt) (hd : s.dedupSize ≥ 1) (id : Nat) : id ∈ (s.seen id).1.ring := by
+  simp only [ClientSt.seen]
+  by_cases hc : id ∈ s.ring
+  · simp [hc]
+  · simp only [List.contains_eq_mem, hc, decide_false, Bool.false_eq_true, if_false]
+    split
+    · rename_i hl
+      cases hr : s.ring with
+      | nil => simp [hr] at hl; omega
+      | cons a r => simp
+    · simp
+
+/-- `match_exact` (used by the fan-out lemmas; restated in `Props/C17.lean`) -/
+theorem match_exact_aux (t : Trie) (h : t.Reachable) (topic : String) :
+    (t.matchTopic topic).Nodup ∧
+    ∀ p, p ∈ t.matchTopic topic ↔ (t.count p > 0 ∧ segMatches (splitTopic p) (splitTopic topic) = true) := by
+  refine ⟨nodup_matchLevel _ [] _ h.wf, fun p => ?_⟩
+  simp only [Trie.matchTopic, Trie.count, mem_matchLevel, refsAt_pos_iff]
+  constructor
+  · rintro ⟨q, n, hq, hr, hp, hm⟩
+    have hs : splitTopic p = q := by simpa [hp] using pat_of_nodeAt h.wf hq hr
+    exact ⟨⟨n, by rw [hs]; exact hq, hr⟩, by rw [hs]; exact hm⟩
+  · rintro ⟨⟨n, hq, hr⟩, hm⟩
+    have hs : splitTopic n.pat = splitTopic p := by simpa using pat_of_nodeAt h.wf hq hr
+    exact ⟨splitTopic p, n, hq, hr, splitTopic_injective hs, hm⟩
+
+/-! ### serving side: fan-out -/
+
+theorem mem_dedupNat (l seen : List Nat) (x : Nat) :
+    x ∈ NodeSt.dedupNat l seen ↔ x ∈ l ∧ x ∉ seen := by
+  induction l generalizing seen with
+  | nil => simp [NodeSt.dedupNat]
+  | cons a r ih =>
+    simp only [NodeSt.dedupNat]
+    by_cases h : a ∈ seen
+    · simp only [List.contains_eq_mem, h, decide_true, if_true, ih, List.mem_cons]
+      constructor
+      · rintro ⟨h1, h2⟩; exact ⟨Or.inr h1, h2⟩
+      · rintro ⟨h1 | h1, h2⟩
+        · subst h1; exact absurd h h2
+        · exact ⟨h1, h2⟩
+    · simp only [List.contains_eq_mem, h, decide_false, Bool.false_eq_true, if_false, List.mem_cons, ih]
+      constructor
+      · rintro (h1 | ⟨h1, h2⟩)
+        · subst h1; exact ⟨Or.inl rfl, h⟩
+        · exact ⟨Or.inr h1, fun hx => h2 (Or.inr hx)⟩
+      · rintro ⟨h1 | h1, h2⟩
+        · exact Or.inl h1
+        · by_cases hxa : x = a
+          · exact Or.inl hxa
+          · exact Or.inr ⟨h1, by rintro (hx | hx); exact hxa hx; exact h2 hx⟩
+
+theorem nodup_dedupNat (l seen : List Nat) : (NodeSt.dedupNat l seen).Nodup := by
+  induction l generalizing seen with
+  | nil => simp [NodeSt.dedupNat]
+  | cons a r ih =>
+    simp only [NodeSt.dedupNat]
+    split
+    · exact ih _
+    · refine List.nodup_cons.mpr ⟨?_, ih _⟩
+      rw [mem_dedupNat]; simp
+
+theorem tagChars_inj (a b x y : List Char) (ha : '/' ∉ a) (hb : '/' ∉ b)
+    (h : a ++ '/' :: x = b ++ '/' :: y) : a = b ∧ x = y := by
+  induction a generalizing b with
+  | nil =>
+    cases b with
+    | nil => simpa using h
+    | cons c b' => simp at h; exact absurd h.1.symm (by intro hc; exact hb (by simp [hc]))
+  | cons c a' ih =>
+    cases b with
+    | nil => simp at h; exact absurd h.1 (by intro hc; exact ha (by simp [hc]))
+    | cons d b' =>
+      simp at h
+      obtain ⟨h1, h2⟩ := h
+      have := ih b' (fun hm => ha (List.mem_cons_of_mem _ hm)) (fun hm => hb (List.mem_cons_of_mem _ hm)) h2
+      exact ⟨by rw [h1, this.1], this.2⟩
+
+/-- `validateSpaceId` is what makes the `space/pattern` tag encoding injective -/
+theorem interestTag_inj {s1 s2 p1 p2 : String} (h1 : validSpaceId s1 = true) (h2 : validSpaceId s2 = true)
+    (h : interestTag s1 p1 = interestTag s2 p2) : s1 = s2 ∧ p1 = p2 := by
+  simp only [validSpaceId, Bool.and_eq_true, Bool.not_eq_true', decide_eq_true_eq] at h1 h2
+  have hl := congrArg String.toList h
+  simp only [interestTag, String.toList_append] at hl
+  have hs : "/".toList = ['/'] := by decide
+  rw [hs] at hl
+  simp only [List.append_assoc, List.singleton_append] at hl
+  have := tagChars_inj _ _ _ _ (by simpa using h1.2) (by simpa using h2.2) hl
+  exact ⟨String.toList_inj.mp this.1, String.toList_inj.mp this.2⟩
+
+theorem mem_broadcast (s : NodeSt) (tags : List String) (sid : Nat) :
+    sid ∈ s.broadcast tags ↔ ∃ tag, tag ∈ tags ∧ ∃ st, st ∈ s.pool ∧ tag ∈ st.tags ∧ st.sid = sid := by
+  simp only [NodeSt.broadcast]
+  split
+  · simp [mem_dedupNat, List.mem_flatMap, and_assoc]
+  · simp [List.mem_flatMap, and_assoc]
+
+theorem nodup_broadcast (s : NodeSt) (hn : (s.pool.map (·.sid)).Nodup) (tags : List String) :
+    (s.broadcast tags).Nodup := by
+  simp only [NodeSt.broadcast]
+  split
+  · exact nodup_dedupNat _ _
+  · rename_i h
+    match tags with
+    | [] => simp
+    | [tag] =>
+      simp only [List.flatMap_cons, List.flatMap_nil, List.append_nil]
+      exact List.Nodup.sublist (List.Sublist.map _ List.filter_sublist) hn
+    | a :: b :: r => simp at h
+
+theorem fanout_spec (s : NodeSt) (h : s.Agree) (space topic : String) :
+    (s.fanout space topic).Nodup ∧
+    ∀ sid, sid ∈ s.fanout space topic ↔
+      ∃ p, s.Reg sid space p ∧ segMatches (splitTopic p) (splitTopic topic) = true := by
+  simp only [NodeSt.fanout, NodeSt.getTrie]
+  cases ht : alookup space s.remote with
+  | none =>
+    refine ⟨by simp, fun sid => ?_⟩
+    simp only [List.not_mem_nil, false_iff]
+    rintro ⟨p, hr, _⟩
+    obtain ⟨t, ht'⟩ := h.trieHas sid space p hr
+    rw [ht] at ht'; cases ht'
+  | some t =>
+    have hme := fun p => (match_exact_aux t (h.trieReach space t ht) topic).2 p
+    simp only
+    split
+    · rename_i hemp
+      refine ⟨by simp, fun sid => ?_⟩
+      simp only [List.not_mem_nil, false_iff]
+      rintro ⟨p, hr, hm⟩
+      have : p ∈ t.matchTopic topic := (hme p).mpr ⟨(h.trieCount space t ht p).mpr ⟨sid, hr⟩, hm⟩
+      simp [List.isEmpty_iff] at hemp
+      rw [hemp] at this; simp at this
+    · refine ⟨nodup_broadcast s h.poolNodup _, fun sid => ?_⟩
+      rw [mem_broadcast]
+      constructor
+      · rintro ⟨tag, htag, st, hst, hin, hsid⟩
+        obtain ⟨p', hp', rfl⟩ := List.mem_map.mp htag
+        obtain ⟨hc, hm⟩ := (hme p').mp hp'
+        obtain ⟨sid', hr'⟩ := (h.trieCount space t ht p').mp hc
+        obtain ⟨sp'', p'', hr'', heq⟩ := (h.tags st hst _).mp hin
+        have := interestTag_inj (h.validReg _ _ _ hr') (h.validReg _ _ _ hr'') heq
+        obtain ⟨rfl, rfl⟩ := this
+        subst hsid
+        exact ⟨p', hr'', hm⟩
+      · rintro ⟨p, hr, hm⟩
+        have hp : p ∈ t.matchTopic topic := (hme p).mpr ⟨(h.trieCount space t ht p).mpr ⟨sid, hr⟩, hm⟩
+        obtain ⟨st, hst, hsid⟩ := h.inPool sid space p hr
+        subst hsid
+        exact ⟨interestTag space p, List.mem_map.mpr ⟨p, hp, rfl⟩, st, hst,
+          (h.tags st hst _).mpr ⟨space, p, hr, rfl⟩, rfl⟩
+
+theorem handlePublish_obs (s : NodeSt) (peer ident space topic msgIdent : String)
+    (relayed idLenOk big : Bool) :
+    (s.handlePublish peer ident space topic msgIdent relayed idLenOk big).2.delivered =
+      (if s.publishAccepted peer ident space topic msgIdent relayed idLenOk big then s.fanout space topic else []) ∧
+    (s.handlePublish peer ident space topic msgIdent relayed idLenOk big).2.forwards =
+      (if s.publishAccepted peer ident space topic msgIdent relayed idLenOk big && !relayed then [true] else []) := by
+  unfold NodeSt.handlePublish NodeSt.publishAccepted
+  cases idLenOk <;> cases big <;> simp
+  cases h1 : validateTopic topic <;> simp
+  by_cases h2 : space ∈ s.notResp <;> simp [h2]
+  cases relayed <;> simp
+  rotate_left
+  · by_cases h3 : peer ∈ s.nodePeers <;> simp [h3]
+  by_cases h4 : ident = "-"
+  · simp [h4]
+  by_cases h6 : ident = msgIdent
+  rotate_left
+  · have : ¬ msgIdent = ident := fun h => h6 h.symm
+    simp [h4, h6, this]
+  subst h6
+  simp [h4]
+  cases h7 : ctxAccount ident <;> simp
+  rename_i acct
+  cases h8 : s.isMember space acct <;> simp
+  by_cases h9 : topicOwner topic = ""
+  all_goals by_cases h9' : acct = topicOwner topic
+  all_goals simp [h9, h9']
+  all_goals unfold NodeSt.rateAllow
+  all_goals by_cases h10 : (alookup peer s.rateUsed).getD 0 < s.burst
+  all_goals simp [h10, NodeSt.fanout, NodeSt.getTrie, NodeSt.broadcast]
+
+theorem rateAllow_state (s : NodeSt) (peer : String) :
+    (s.rateAllow peer).1.remote = s.remote ∧ (s.rateAllow peer).1.streams = s.streams ∧
+    (s.rateAllow peer).1.pool = s.pool := by
+  unfold NodeSt.rateAllow
+  simp only
+  split <;> simp
+
+theorem handlePublish_state (s : NodeSt) (peer ident space topic msgIdent : String)
+    (relayed idLenOk big : Bool) :
+    (s.handlePublish peer ident space topic msgIdent relayed idLenOk big).1.remote = s.remote ∧
+    (s.handlePublish peer ident space topic msgIdent relayed idLenOk big).1.streams = s.streams ∧
+    (s.handlePublish peer ident space topic msgIdent relayed idLenOk big).1.pool = s.pool := by
+  unfold NodeSt.handlePublish
+  simp only
+  split
+  · simp
+  split
+  · simp
+  split
+  · simp
+  split
+  · split <;> simp
+  split
+  · simp
+  split
+  · simp
+  split
+  · simp
+  split
+  · simp
+  split <;> (rename_i heq; have := rateAllow_state s peer; rw [heq] at this; simpa using this)
+
 end AnySync.PubSub
